@@ -155,9 +155,10 @@ class FortranRegularExpressions:
     SCOPE_DEF: Pattern = compile(
         r"[ ]*(MODULE|PROGRAM|SUBROUTINE|FUNCTION|INTERFACE)[ ]+", I
     )
+    # An END statement holds nothing but END [keyword [name]]: ``endv = f(1`` or
+    # ``end_time(2) = 0`` only start with the same letters
     END: Pattern = compile(
-        r"[ ]*(END)("
-        r" |MODULE|PROGRAM|SUBROUTINE|FUNCTION|PROCEDURE|TYPE|DO|IF|SELECT)?",
+        r"[ ]*END[ ]*(?:[a-z]+(?:[ ]+\w+){0,2}(?:[ ]*\([^)]*\))?)?[ ]*(?:$|[!;])",
         I,
     )
     # Object regex patterns
